@@ -6,6 +6,7 @@ import json, os, shutil, subprocess, sys, tempfile
 mdir, prop = sys.argv[1], sys.argv[2]
 keep = sys.argv[sys.argv.index('--keep') + 1] if '--keep' in sys.argv else None
 tier = sys.argv[sys.argv.index('--tier') + 1] if '--tier' in sys.argv else 'quick'
+VD = os.environ.get('VERIF_DIR', '/verif')
 wt = tempfile.mkdtemp(prefix='seedwt_', dir='/var/tmp')
 os.rmdir(wt)
 def sh(cmd, **kw):
@@ -25,14 +26,14 @@ try:
     res["demo_mutated_rc"] = r1.returncode
     res["demo_mutated_tail"] = r1.stdout[-300:]
     env2 = dict(os.environ, COBA_REPO=wt)
-    c = sh("cd /verif && /venv/bin/python harness/vcheck.py %s --tier %s" % (prop, tier), env=env2, timeout=3000)
+    c = sh("cd %s && /venv/bin/python harness/vcheck.py %s --tier %s" % (VD, prop, tier), env=env2, timeout=3000)
     res["check_rc"] = c.returncode
     res["check_lines"] = [l for l in c.stdout.splitlines() if l.startswith(('VIOLATION', 'KNOWN', prop, '  '))][:8]
     for l in c.stdout.splitlines():
         if l.startswith('VIOLATION'):
             rp = l.split('replay=')[1].split()[0]
             try:
-                rj = json.load(open(os.path.join('/verif', rp)))
+                rj = json.load(open(os.path.join(VD, rp)))
                 res["replay_failure"] = (rj.get('failure') or {}).get('what', rj.get('no_longer_checks'))
             except Exception as e:
                 res["replay_failure"] = str(e)
@@ -41,7 +42,7 @@ finally:
     sh("git -C /repo worktree remove --force %s" % wt)
     shutil.rmtree(wt, ignore_errors=True)
     # restore generated files that depend on the repo under test
-    sh("cd /verif && git checkout -- lean/CobaVerif/Generated 2>/dev/null")
+    sh("cd %s && git checkout -- lean/CobaVerif/Generated 2>/dev/null" % VD)
 print(json.dumps(res, indent=1))
 if keep:
     d = os.path.join('/verif/seeded', keep)
